@@ -46,6 +46,7 @@ class Sched:
         self.aborting = False
         self.timeout = timeout
         self.order = []
+        self.yield_after_release = False  # finer granularity: one more scheduling point right after a mutex was released
 
     # ---- called from the controlling (main) thread
     def spawn(self, tid, fn, *args):
@@ -77,7 +78,7 @@ class Sched:
     def runnable(self, tid):
         st = self.ctl[tid].state
         k = st[0]
-        if k in ("idle", "in"):
+        if k in ("idle", "in", "released"):
             return True
         if k in ("want", "woken"):
             lock = st[1] if k == "want" else st[1]._lock
@@ -171,6 +172,8 @@ class FakeRLock:
         self._count -= 1
         if self._count == 0:
             self._owner = None
+            if self._sched is not None and self._sched.yield_after_release and not self._sched.aborting and self._me()[0] == "t":
+                self._sched.yield_(("released", self))
 
     __enter__ = acquire
 
